@@ -20,7 +20,10 @@
    operation is complete;
    rekey_fault_restores_handle FULL for the stated positions (one injected error, not ENOENT, at the load, the
    parking of the state point file, the directory rename; any call when the destination is occupied): after
-   the exception the handle's in-memory state point is the on-disk one (repair 8529336 of known finding 4). *)
+   the exception the handle's in-memory state point is the on-disk one (repair 8529336 of known finding 4).
+   Every stat of the operations is a step of the programs (a failing stat reads as "False" in isfile / isdir /
+   exists / lexists): clear_stat_fault_silent REFUTED (known finding 5), clone_lexists_double_fault REFUTED
+   (known finding 6). *)
 From SV Require Import Base Json MD5 Canon FS Proc Crash CorrC11 C11Proofs C11Remove C11Clone C11Fault.
 
 (* the prefix induction principle of the crash semantics *)
